@@ -2,9 +2,13 @@
 
 Theorems: Props/C13.v (locality of the cost SPEC, of the sad/ssd/census/zncc MODEL, of the criteria flags, of the
         cbca SPEC and MODEL (through C11's model = spec), of winner-takes-all, refinement, median and bilateral
-        filters, cross-checking, of every pipeline of these steps: C13_pipeline_local; crop invariance).  The
-        per-step models are tied to the code by the correspondences of C02/C03/C04/C06/C07/C10/C11; nothing new is
-        hand-modelled here except the glue Model/Local.v.
+        filters, cross-checking, of every pipeline of these steps: C13_pipeline_local; crop invariance; vertical
+        flip of every pipeline of these steps at every pixel: C13_pipeline_vflip, under the side conditions
+        C13_vflip_side_conditions).  The per-step models are tied to the code by the correspondences of
+        C02/C03/C04/C06/C07/C10/C11; nothing new is hand-modelled here except the glue Model/Local.v.
+T-gen:  the flag sites of criteria.py are regenerated (gen_flags) so that C13_border_flags_symmetric (the two row
+        statements of mask_border have the same effect: needed by the flip of the matching-cost validity mask) is
+        re-proved on the tree under test.
 T-corr: the cone / margin of each pipeline is computed by the EXTRACTED [kpipe_rad] (the radii of the
         theorem, C13_radii_agree; cbca: arms of max(cbca_distance - 1, 1) pixels, + 1 for the 3x3 median
         pre-filter or the window offset) and decides which pixels of a crop are compared.
@@ -21,7 +25,7 @@ import numpy as np
 from harness import core
 from harness import pandora_util as pu
 
-GEN = []
+GEN = ["gen_flags"]
 EXTRACT_FILES = ["X13"]
 DRIVERS = ["x13"]
 RULE = ("a case = one scene (24-40 x 40-64 pair, integer radiometry inside the exact domain of the measure, right image = "
@@ -39,13 +43,19 @@ ASSUMES = [
     "the per-step models are those of C02/C03/C04/C06/C07/C10/C11 (their correspondences tie them to the code); the "
     "theorem for pipelines (C13_pipeline_local) covers sad/ssd/census/zncc + validity mask, cbca, wta, vfit/quadratic, "
     "median, bilateral, cross-checking; zncc: the model holds the exact integer triple (cov, varL, varR), the float "
-    "evaluation of cov/sqrt(varL varR) is any function of it; the vertical flip is covered by these metamorphic "
-    "runs only",
+    "evaluation of cov/sqrt(varL varR) is any function of it; the vertical flip is proved for the same pipelines "
+    "(C13_pipeline_vflip: every pixel, margins included; flags and cost curves equal, disparities equal as rational "
+    "numbers) under C13_vflip_side_conditions: odd matching-cost window, odd median filter_size, odd EFFECTIVE "
+    "bilateral window min(rows, cols, int(3*sigma_space+1)) with a row-symmetric spatial kernel, census window 3/5, "
+    "cbca_distance >= 1, symmetric border flag statements (re-proved on the regenerated sites)",
+    "side condition of the bilateral flip theorem: the spatial kernel the real filter builds for the window in effect is "
+    "symmetric in rows (checked exactly on every compared bilateral pipeline); the range kernel is a function of its argument",
     "side condition of cross-checking locality (px_ok): a still-valid pixel holds a disparity that rounds into its "
     "interval; checked on the final maps of every run",
     "exact domain (DESIGN 2.1 a): radiometry bounded so that every window sum of the measure is exact in float32; "
-    "flips are compared only there and for odd windows (the bilateral window int(3*sigma_space+1) may be even: then "
-    "the flip is not compared, as the property says); zncc and cbca-on-real-costs are compared on crops (same "
+    "flips are compared only there and for odd windows (the EFFECTIVE bilateral window min(rows, cols, "
+    "int(3*sigma_space+1)) may be even: then the flip is not compared, as the property says and as "
+    "C13_vflip_even_window_refuted shows on the model); zncc and cbca-on-real-costs are compared on crops (same "
     "operations in the same order) but not on flips (summation order changes); after an odd-window bilateral filter "
     "(float weighted mean) flipped disparities are compared within 2^-12 and flags are not compared",
     "cbca integral images are running sums from the image side (float64 since the `fix:` commit of this property): "
@@ -292,7 +302,24 @@ def check_case(ctx, model, case):
                     "interior_pixels": npx, "distinct_disparities": nd, "flagged": flagged})
     # ---- vertical flip
     if case.get("flip"):
-        flip_ok = info["odd_windows"] and info["measure"] != "zncc" and not (info["cbca"] and not exact_cbca)
+        # side condition of C13_bilateral_step_vflip: the EFFECTIVE window min(rows, cols, int(3 sigma_space + 1)) is odd
+        # (bilateral.py clips the window to the image), and every median filter_size is odd
+        eff_odd = all(min(rows, cols, int(3 * c["sigma_space"] + 1)) % 2 == 1 for _, c in pipeline
+                      if c.get("filter_method") == "bilateral") and \
+            all(int(c["filter_size"]) % 2 == 1 for _, c in pipeline if c.get("filter_method") == "median")
+        flip_ok = info["odd_windows"] and eff_odd and info["measure"] != "zncc" and not (info["cbca"] and not exact_cbca)
+        # side condition of C13_bilateral_step_vflip on the data of the real filter: the spatial kernel it builds for the
+        # window in effect is symmetric in rows (sk[win-1-a, b] == sk[a, b], exactly)
+        for _, c in pipeline:
+            if c.get("filter_method") == "bilateral" and eff_odd:
+                import pandora.filter as flt
+                fobj = flt.AbstractFilter(cfg=dict(c), image_shape=(rows, cols), step=1)
+                wk = min(rows, cols, int(3 * c["sigma_space"] + 1))
+                sk = np.asarray(fobj.gauss_spatial_kernel(wk, c["sigma_space"]))
+                ctx.count("side_condition_bilateral_kernel_row_symmetric_checked")
+                if not same(sk, np.ascontiguousarray(sk[::-1])):
+                    ctx.mismatch("assumption_bilateral_kernel_row_symmetric", {"window": wk, "sigma_space": c["sigma_space"]},
+                                 sk.tolist(), sk[::-1].tolist())
         if not flip_ok:
             ctx.count("flip_not_compared_even_window_or_real_valued")
             return
@@ -326,6 +353,46 @@ def check_case(ctx, model, case):
                 okf = False
                 report("vertical_flip", name, first_diff(a, b), {"flip": True})
         ctx.case((tuple(steps), info["measure"], digest, "flip") if okf else None)
+
+
+# ---------------------------------------------------------------- the finding bilateral_window_clipped_to_even_size
+
+
+def probe_clipped_bilateral(ctx, case=None):
+    """Side condition of C13_bilateral_step_vflip, read on the real code: the bilateral window in effect is
+    min(rows, cols, int(3 sigma_space + 1)); an odd requested window (7 for sigma_space 2.0) clipped to an even size by a
+    4-row image is not symmetric about its centre, and the flipped run is not the flip of the run
+    (C13_vflip_clipped_window_refuted is the same fact on the model).  A 7-row image (window not clipped) is the control."""
+    rng = ctx.rng
+    if case is None:
+        left, right, _, _ = gen_scene(rng, 7, 40, 255, (False, False))
+        case = {"probe": "clipped_bilateral", "left": left.tolist(), "right": right.tolist(), "interval": [-2, 2],
+                "pipeline": [["matching_cost", {"matching_cost_method": "sad", "window_size": 1, "subpix": 1}],
+                             ["disparity", {"disparity_method": "wta", "invalid_disparity": -9999}],
+                             ["filter", {"filter_method": "bilateral", "sigma_color": 2.0, "sigma_space": 2.0}]]}
+    left7 = np.array(case["left"], dtype=np.float32)
+    right7 = np.array(case["right"], dtype=np.float32)
+    for rows in (7, 4):
+        left, right = np.ascontiguousarray(left7[:rows]), np.ascontiguousarray(right7[:rows])
+        try:
+            w = run_pipeline(left, right, None, None, case["interval"], case["pipeline"])
+            f = run_pipeline(np.ascontiguousarray(left[::-1]), np.ascontiguousarray(right[::-1]), None, None,
+                             case["interval"], case["pipeline"])
+        except Exception as exc:  # pylint: disable=broad-except
+            ctx.count("probe_clipped_bilateral_raised_" + pu.exc_class(exc))
+            return
+        ctx.traces += 2
+        a, b = w["ld"].astype(np.float64), f["ld"][::-1].astype(np.float64)
+        bad = ~((np.isnan(a) & np.isnan(b)) | (np.abs(a - b) <= 2.0 ** -12))
+        ctx.count(f"probe_bilateral_window7_on_{rows}_rows_flip_" + ("differs" if bad.any() else "agrees"))
+        if bad.any():
+            y, x = (int(v) for v in np.argwhere(bad)[0])
+            key = "bilateral_window_clipped_to_even_size" if rows == 4 else "vertical_flip_differs_ld_bilateral_unclipped_window"
+            ctx.violation(key, f"bilateral filter sigma_space 2.0 (window int(3*2+1) = 7, odd) on a {rows}x40 image: the window in "
+                               f"effect is min(rows, cols, 7) = {min(rows, 7)}; the disparity map of the vertically flipped pair "
+                               f"differs from the flipped disparity map on {int(bad.sum())} pixel(s), first at {[y, x]}: "
+                               f"{float(a[y, x])} vs {float(b[y, x])}", dict(case))
+    ctx.case(("probe", "clipped_bilateral"))
 
 
 # ---------------------------------------------------------------- cases
@@ -398,6 +465,9 @@ def run(ctx):
     if D2 != [5, 9, 9] or M2 != [5, 9, 9]:
         ctx.mismatch("radii_example_cbca", "window 3, [-2,1], mc cbca3 wta median5 xcheck", [D2, M2], [[5, 9, 9], [5, 9, 9]])
     ctx.stats["example_radii_cbca"] = {"data_cone": D2, "margin": M2}
+    if ctx.replay_case is not None and ctx.replay_case.get("probe") == "clipped_bilateral":
+        probe_clipped_bilateral(ctx, dict(ctx.replay_case))
+        return
     if ctx.replay_case is not None:
         case = dict(ctx.replay_case)
         if "crop" in case:          # a failing crop: replay that crop only
@@ -413,7 +483,11 @@ def run(ctx):
     import os
     for path in sorted(glob.glob(os.path.join(core.VERIF, "corpus", "C13", "*.json"))):
         with open(path) as fh:
-            check_case(ctx, model, json.load(fh))
+            ccase = json.load(fh)
+        if ccase.get("probe") == "clipped_bilateral":      # the input of the finding bilateral_window_clipped_to_even_size
+            probe_clipped_bilateral(ctx, ccase)
+        else:
+            check_case(ctx, model, ccase)
         ctx.count("corpus_cases")
     n_scenes, ncrops = (18, 2) if ctx.tier == "quick" else (300, 4)
     n_big = 1 if ctx.tier == "quick" else 12
@@ -435,6 +509,7 @@ def run(ctx):
         ctx.count("masks_right" if case["mask_right"] is not None else "no_mask_right")
         check_case(ctx, model, case)
     if ctx.tier != "quick":
+        probe_clipped_bilateral(ctx)       # the same probe on a fresh scene
         # regression of the repaired defect: ssd costs of 12-bit radiometry through cbca (float32 running sums
         # depended on the distance to the image side)
         for i in range(6):
